@@ -295,6 +295,32 @@ func registerGob() {
 			m.ghostIDs++
 			ng := &ghostBytes{items: append(append([]value{}, gb.items[:j]...), ghostGarbage{}), id: m.ghostIDs}
 			*fieldOf(st.blocks[i], "Data") = ng
+			noCollision(m, ng, *fieldOf(st.blocks[i], "CheckSum"))
+		case 8: // byte damage inside the payload of block i that still decodes: item j carries a different value; the checksum field is left alone
+			gb, _ := (*fieldOf(st.blocks[i], "Data")).(*ghostBytes)
+			if gb == nil || j < 0 || j >= len(gb.items) {
+				return falseT
+			}
+			it, ok := gb.items[j].(structure)
+			if !ok || len(it) < 2 {
+				return falseT
+			}
+			orig, ok := it[1].(*Term)
+			if !ok || orig.sort.K != SBV {
+				return falseT
+			}
+			nv := m.fresh("damagedValue", orig.sort)
+			if !nv.isC {
+				m.addPC(mkNot(mkEq(nv, orig)))
+			}
+			ni := append(structure{}, it...)
+			ni[1] = nv
+			items := append([]value{}, gb.items...)
+			items[j] = ni
+			m.ghostIDs++
+			ng := &ghostBytes{items: items, id: m.ghostIDs}
+			*fieldOf(st.blocks[i], "Data") = ng
+			noCollision(m, ng, *fieldOf(st.blocks[i], "CheckSum"))
 		default:
 			return falseT
 		}
@@ -303,6 +329,16 @@ func registerGob() {
 }
 
 type ghostGarbage struct{}
+
+// noCollision states the assumption that damaged bytes do not hash to the checksum stored for the intact payload.
+func noCollision(m *machine, ng *ghostBytes, stored value) {
+	if st, ok := stored.(*Term); ok {
+		c := mkNot(mkEq(ng.sum(m), st))
+		if !c.isC {
+			m.addPC(c)
+		}
+	}
+}
 
 func (e *engine) dataBlockField(name string) int {
 	e.dbOnce.Do(func() {
